@@ -198,6 +198,77 @@ theorem header_says_what_the_inner_is (z il iml ip imp mr rl nz rb : Int) (zr : 
         have : (enc_compress z il iml ip imp mr rl nz rb zr).get "c.inner" 0 = 0 := by simp [KOut.get, hw]
         omega
 
+/-! ## `enc_mac`: the encoder authenticates the same bytes, in the same order -/
+
+/-- the MAC-feeding calls of an event list (initialisation and updates, with their arguments) -/
+def macFeed (evs : List (String × List Int)) : List (String × List Int) :=
+  evs.filter fun e => e.1 == "mac_init" || e.1 == "mac_update"
+
+/-- **The encoder MACs the outer layer, then the inner layer, each whole, under the daemon's MAC key**, and its digest length is
+    what `mac_size` reports for the requested type. -/
+theorem enc_mac_covers_outer_then_inner (mac ol il kl op ip kp ri ru rc ru2 nf rf rc2 : Int) (ms : Int → Int)
+    (h : (enc_mac mac ol il kl op ip kp ri ru rc ru2 nf rf rc2 ms).ret = 0) :
+    macFeed (enc_mac mac ol il kl op ip kp ri ru rc ru2 nf rf rc2 ms).events =
+      [("mac_init", [mac, kl]), ("mac_update", [op, ol]), ("mac_update", [ip, il])] ∧
+    (enc_mac mac ol il kl op ip kp ri ru rc ru2 nf rf rc2 ms).get "c.mac_len" (-1) = ms mac ∧ 0 < ms mac ∧
+    (enc_mac mac ol il kl op ip kp ri ru rc ru2 nf rf rc2 ms).count "mac_final" = 1 ∧
+    (enc_mac mac ol il kl op ip kp ri ru rc ru2 nf rf rc2 ms).count "mac_cleanup" = 1 := by
+  unfold enc_mac at h ⊢
+  simp only [apply_ite KOut.ret] at h
+  simp only [apply_ite KOut.events, apply_ite (macFeed), apply_ite (fun o => KOut.get o "c.mac_len" (-1)),
+    apply_ite (fun o => KOut.count o "mac_final"), apply_ite (fun o => KOut.count o "mac_cleanup")]
+  repeat' (first | split at h | omega)
+  all_goals (simp [*, macFeed, KOut.get, KOut.written, KOut.count] ; try omega)
+
+/-- **Encoder and decoder feed their MACs identically**: for the same layers and key, the initialisation and update calls of a
+    successful `enc_mac` and of an accepting `dec_validate_mac` are the same list. -/
+theorem encoder_and_decoder_mac_the_same_bytes (mac ol il kl op ip kp : Int)
+    (ri ru rc ru2 nf rf rc2 : Int) (ms : Int → Int) (en ml mp ri' ru' rc' ru2' nf' rf' rc2' rm' : Int)
+    (he : (enc_mac mac ol il kl op ip kp ri ru rc ru2 nf rf rc2 ms).ret = 0)
+    (hd : (dec_validate_mac mac en ol il ml kl op ip kp mp ri' ru' rc' ru2' nf' rf' rc2' rm').ret = 0) :
+    macFeed (enc_mac mac ol il kl op ip kp ri ru rc ru2 nf rf rc2 ms).events =
+    macFeed (dec_validate_mac mac en ol il ml kl op ip kp mp ri' ru' rc' ru2' nf' rf' rc2' rm').events := by
+  rw [(enc_mac_covers_outer_then_inner mac ol il kl op ip kp ri ru rc ru2 nf rf rc2 ms he).1,
+    mac_covers_outer_then_inner mac en ol il ml kl op ip kp mp ri' ru' rc' ru2' nf' rf' rc2' rm' hd]
+  rfl
+
+/-! ## `dec_decompress` -/
+
+/-- **A compressed inner layer that does not decompress is the generic invalid-credential error, and its scratch buffer is
+    freed** (the repair of F4: the buffer used to leak on this path): -1, `EMUNGE_CRED_INVALID`, exactly one `free` of the
+    buffer, the inner layer untouched. -/
+theorem decompress_failure_frees_buffer (z il iml ip imp mr rl nz rb : Int)
+    (hz : z ≠ 0) (hl : 0 < rl) (hm : mr ≠ 0) (hb : rb < 0) :
+    let o := dec_decompress z il iml ip imp mr rl nz rb
+    o.ret = -1 ∧ o.err = 14 ∧ o.count "free:buf" = 1 ∧ o.writes = [] := by
+  have hl' : ¬ rl ≤ 0 := by omega
+  dsimp only
+  unfold dec_decompress
+  simp [hz, hl', hm, hb, KOut.err, KOut.count]
+
+/-- **Successful decompression replaces the inner layer** by the buffer of the length the header announced, with the length
+    the back end reported; the previous inner buffer (the plaintext, for an encrypted credential) is wiped and freed exactly
+    when there was one. -/
+theorem decompress_success_shape (z il iml ip imp mr rl nz rb : Int)
+    (hz : z ≠ 0) (hl : 0 < rl) (hm : mr ≠ 0) (hb : 0 ≤ rb) :
+    let o := dec_decompress z il iml ip imp mr rl nz rb
+    o.ret = 0 ∧ o.get "c.inner" 0 = mr ∧ o.get "c.inner_len" (-1) = nz ∧ o.get "c.inner_mem_len" (-1) = rl ∧
+    o.count "free:c.inner_mem" = (if imp ≠ 0 then 1 else 0) ∧ o.count "free:buf" = 0 := by
+  have hl' : ¬ rl ≤ 0 := by omega
+  have hb' : ¬ rb < 0 := by omega
+  dsimp only
+  unfold dec_decompress
+  by_cases hi : imp = 0 <;> simp [hz, hl', hm, hb', hi, KOut.get, KOut.written, KOut.count]
+
+/-- **Anything the length header does not vouch for is refused before a buffer exists**: a non-positive announced length
+    gives -1 without allocation. -/
+theorem decompress_bad_length_refused (z il iml ip imp mr rl nz rb : Int) (hz : z ≠ 0) (hl : rl ≤ 0) :
+    let o := dec_decompress z il iml ip imp mr rl nz rb
+    o.ret = -1 ∧ o.count "malloc" = 0 ∧ o.writes = [] := by
+  dsimp only
+  unfold dec_decompress
+  simp [hz, hl, KOut.count]
+
 /-! ## the model's MAC stage is the code's -/
 
 open Munge.Cred in
